@@ -30,10 +30,10 @@ def get_fn(run, ctx, suffix, family, instance):
 _paths_cache = {}
 
 
-def paths_of(node, max_paths=60000):
-    key = id(node)
+def paths_of(node, max_paths=60000, combinators=False):
+    key = (id(node), combinators)
     if key not in _paths_cache:
-        _paths_cache[key] = H.enum_paths(node, max_paths=max_paths)
+        _paths_cache[key] = H.enum_paths(node, max_paths=max_paths, combinators=combinators)
     return _paths_cache[key]
 
 
